@@ -103,6 +103,9 @@ func compare(src *Source, r Real, fl *Flat, bugs BugFlags, correct bool) (d diff
 	accepted := r.Stage == "ok"
 	if fl.Reject != "" {
 		if !accepted {
+			if fl.RejectClass != "" && errClass(r) != fl.RejectClass {
+				return diff{"reject|rejected-for-an-unexpected-reason|" + errClass(r), fmt.Sprintf("rejected at stage %s with %q; the model expected a %s rejection", r.Stage, r.Err, fl.RejectClass)}, false, 0
+			}
 			return diff{}, false, 0
 		}
 		return diff{"accept|source-expected-to-be-rejected-was-assembled", "model predicts rejection (" + fl.Reject + ") but the assembler produced a machine"}, false, 0
@@ -119,7 +122,17 @@ func compare(src *Source, r Real, fl *Flat, bugs BugFlags, correct bool) (d diff
 	start := make([]int, len(fl.CPs))
 	delay := make([]int, len(fl.CPs))
 	handshake := false
-	for i, cp := range fl.CPs {
+	for ci, cp := range fl.CPs {
+		// the assembler numbers the CPs by name, not by declaration order: match by name
+		i := -1
+		for k, n := range r.CPNames {
+			if n == cp.Name {
+				i = k
+			}
+		}
+		if i < 0 {
+			return diff{"static|cp-missing", "no processor named " + cp.Name + " in the machine"}, false, 0
+		}
 		want := flatLines(cp)
 		got := r.Disasm[i]
 		tramp := false
@@ -154,12 +167,12 @@ func compare(src *Source, r Real, fl *Flat, bugs BugFlags, correct bool) (d diff
 		if cp.Handshake {
 			handshake = true
 		}
-		start[i] = cp.Entry
+		start[ci] = cp.Entry
 		if bugs&BugEntryAtZero != 0 {
-			start[i] = 0
+			start[ci] = 0
 		}
 		if tramp {
-			delay[i] = 1
+			delay[ci] = 1
 		}
 	}
 	w := buildWiring(src)
@@ -167,7 +180,27 @@ func compare(src *Source, r Real, fl *Flat, bugs BugFlags, correct bool) (d diff
 		return diff{"wiring|bm-io-count-differs", fmt.Sprintf("machine has %d in/%d out, the ioatt lines declare %d in/%d out", r.NIn, r.NOut, w.nIn, w.nOut)}, false, 0
 	}
 	if handshake {
-		return diff{}, false, 0
+		// timing-independent comparison: the sequence of values each BM output takes must be a
+		// prefix of the sequence the blocking-send/blocking-receive semantics produces
+		want := InterpretKahn(src, fl, start, 40*Ticks)
+		if want == nil || len(r.Trace) == 0 {
+			return diff{}, false, 0
+		}
+		for k := range want {
+			got := []uint64{0}
+			for t := range r.Trace {
+				if v := r.Trace[t][k]; v != got[len(got)-1] {
+					got = append(got, v)
+				}
+			}
+			for j := range got {
+				if j >= len(want[k]) || got[j] != want[k][j] {
+					return diff{"dynamic|handshaked-output-sequence-differs-although-program-matches", fmt.Sprintf("bm output %d takes the values %v, blocking send/receive semantics gives %v", k, got, want[k])}, true, 0
+				}
+			}
+			writes += len(got) - 1
+		}
+		return diff{}, true, writes
 	}
 	ref := Interpret(src, fl, start, delay, Ticks)
 	for t := range ref {
@@ -201,6 +234,14 @@ func col(tr [][]uint64, k int) []uint64 {
 }
 
 var reNum = regexp.MustCompile(`^[0-9]+$`)
+
+func popcount(x BugFlags) int {
+	c := 0
+	for ; x != 0; x &= x - 1 {
+		c++
+	}
+	return c
+}
 
 // staticDiff classifies the first difference between the disassembly and the reference flattening;
 // the class names the pass responsible.
@@ -265,28 +306,37 @@ func Judge(text string, r Real) Verdict {
 	// which known defects can matter for this source at all
 	asis := Flatten(src, BugFlags(1<<bugAll-1))
 	relevant := asis.Fired | BugEntryAtZero
-	var last diff
+	var matches []BugFlags
+	matchSize := -1
 	for _, s := range subsetsBySize(relevant) {
 		if s == 0 {
 			continue
 		}
+		if matchSize >= 0 && popcount(s) > matchSize {
+			break
+		}
 		fl := Flatten(src, s)
-		if fl.Fired|BugEntryAtZero != s|BugEntryAtZero && fl.Reject == "" {
+		if fl.Fired&^BugEntryAtZero != s&^BugEntryAtZero {
 			// some flag of s had no effect: a smaller subset already covers it
 			continue
 		}
-		d, _, _ := compare(src, r, fl, s, false)
-		if d.class == "" {
-			v := Verdict{Kind: "known", Accepted: accepted}
-			var names []string
-			for _, b := range bugList(s) {
-				v.Sigs = append(v.Sigs, bugSignature[b])
-				names = append(names, bugSignature[b])
-			}
-			v.What = "behaviour explained by known defect(s) " + strings.Join(names, " + ") + "; vs correct semantics: " + d0.what
-			return v
+		if d, _, _ := compare(src, r, fl, s, false); d.class == "" {
+			matches = append(matches, s)
+			matchSize = popcount(s)
 		}
-		last = d
+	}
+	if len(matches) == 1 {
+		v := Verdict{Kind: "known", Accepted: accepted}
+		for _, b := range bugList(matches[0]) {
+			v.Sigs = append(v.Sigs, bugSignature[b])
+		}
+		v.What = "behaviour explained by known defect(s) " + strings.Join(v.Sigs, " + ") + "; vs correct semantics: " + d0.what
+		return v
+	}
+	if len(matches) > 1 {
+		// several known defects are each sufficient to explain this source: it is not used as a
+		// witness of any of them (each defect has witnesses where it is the only explanation)
+		return Verdict{Kind: "known-ambiguous", Accepted: accepted, What: d0.what}
 	}
 	// not explained by any combination of known defects: classify against the as-is model when it
 	// predicts an accepted program (isolates the new deviation), else against the correct one
@@ -300,6 +350,5 @@ func Judge(text string, r Real) Verdict {
 			dd = d
 		}
 	}
-	_ = last
 	return Verdict{Kind: "violation", Sigs: []string{"C05|" + dd.class}, What: dd.what, Accepted: accepted}
 }
